@@ -63,8 +63,28 @@ def edit_case(draw):
     return {"kind": "edit", "lines": lines, "keys": "".join(toks)}
 
 
+@st.composite
+def tag_case(draw):
+    """:ta puts the cursor on the tag's name in its line: a character offset"""
+    pre = draw(mbline)
+    post = draw(mbline)
+    kw = draw(st.sampled_from(["foo", "t_1", "日本", "é1"]))
+    lines = [draw(mbline), pre.replace(kw, "") + kw + post, draw(mbline)]
+    return {"kind": "tag", "lines": lines, "kw": kw, "key": draw(st.sampled_from(["r#", "x", "~", "i|\x1b"]))}
+
+
+@st.composite
+def longline_case(draw):
+    """registers and commands that copy a whole line through a fixed-size buffer"""
+    unit = draw(mbline)
+    n = draw(st.sampled_from([1000, 1020, 1022, 1023, 1024, 1025, 1030, 2047, 2048, 2100]))
+    line = (unit * (n // max(1, len(unit.encode())) + 2))
+    keys = draw(st.sampled_from(['";p', '";P', 'A\x12;\x1b', ':pu ;\n', 'yyp', '";pu', 'ddP', ':co 0\n', ':s/.*/&&/\n', 'J', '$x0x']))
+    return {"kind": "edit", "lines": [draw(mbline), line], "keys": "j" + keys}
+
+
 def strategy(tier):
-    return st.one_of(ustring.map(lambda b: {"kind": "str", "s": b}), edit_case())
+    return st.one_of(ustring.map(lambda b: {"kind": "str", "s": b}), edit_case(), edit_case(), tag_case(), longline_case())
 
 
 # ------------------------------------------------------------------ oracle for the uc op
@@ -131,6 +151,34 @@ def run_case(env, c):
         if why:
             return Outcome(False, nt, ["str"], detail={"why": why, "s": b})
         return Outcome(True, nt, ["str", "len_%d" % min(len(b) // 50, 4)])
+    if c["kind"] == "tag":
+        d = env.fresh()
+        runner.write_file(d, "f", gen.to_bytes(c["lines"]))
+        runner.write_file(d, "tags", ("%s\tf\t2\n" % c["kw"]).encode("utf-8"))
+        stdin = (":ta %s\n%s" % (c["kw"], c["key"])).encode("utf-8") + b"\x1b:w! out\n" + runner.VI_TRAILER
+        r = runner.run_editor(env.paths["vi"], ["-v", "f"], stdin, d, rows=10, cols=60, want_stats=False)
+        if r.timeout:
+            return Outcome(True, False, ["tag", "timeout"], inconclusive=True)
+        if r.crashed():
+            return Outcome(False, True, ["tag", "crash"], detail={"why": "editor crashed", "sig": r.signature()})
+        out = runner.read_file(d, "out")
+        l2 = c["lines"][1]
+        i = l2.index(c["kw"])
+        k = c["key"]
+        if k == "r#":
+            w2 = l2[:i] + "#" + l2[i + 1:]
+        elif k == "x":
+            w2 = l2[:i] + l2[i + 1:]
+        elif k == "~":
+            w2 = l2[:i] + l2[i].swapcase() + l2[i + 1:] if ord(l2[i]) < 128 else l2
+        else:
+            w2 = l2[:i] + "|" + l2[i:]
+        want = gen.to_bytes([c["lines"][0], w2, c["lines"][2]])
+        nt = any(ord(ch) > 127 for ch in l2[:i])
+        if out != want:
+            return Outcome(False, nt, ["tag"], detail={"why": "after :ta the command did not act on the first character of the tag's name (cursor offset counted in "
+                                                        "something else than characters?)", "got": out, "want": want, "case": c})
+        return Outcome(True, nt, ["tag"])
     d = env.fresh()
     src = gen.to_bytes(c["lines"])
     runner.write_file(d, "f", src)
